@@ -192,12 +192,12 @@ type senderWorld struct {
 	runCancelled bool
 	stopped      bool
 
-	runCancel context.CancelFunc
-	runDone   chan struct{}
-	progress  atomic.Int64
-	writes    atomic.Int64
+	runCancel   context.CancelFunc
+	runDone     chan struct{}
+	progress    atomic.Int64
+	writes      atomic.Int64
 	cbSinceDial atomic.Int64 // callbacks since the last dial (the sender recycles a connection after 100 streams)
-	okAfter   atomic.Int64 // successful writes on a connection opened after some failure
+	okAfter     atomic.Int64 // successful writes on a connection opened after some failure
 
 	submit  func(s *streamState) error
 	pad     string
